@@ -51,6 +51,10 @@ type Option func(options *options) error
 // WithElectionTimeout sets the election timeout for raft.
 func WithElectionTimeout(time time.Duration) Option {
 	return func(options *options) error {
+		// The randomized election timeout is drawn from a range of whole milliseconds.
+		if time != 0 && time.Milliseconds() < 1 {
+			return errors.New("election timeout must be at least one millisecond")
+		}
 		options.electionTimeout = time
 		return nil
 	}
